@@ -113,3 +113,17 @@ Example any_order_example :
 Proof.
   split; [intros l x; symmetry; apply in_rev|]. split; [intros l H; apply NoDup_rev; exact H|]. vm_compute. reflexivity.
 Qed.
+
+(** C04_own_*_object / C04_{comp,bt}_regenerates_at: the explicit threshold bound is tiny on the examples (C06's comp_bound and the
+    number of exhaustive matches against the default 5000) *)
+From SK Require Import proof.C06_Comp.
+Example bound_example :
+  (N.max (comp_bound (monos_on (tr_host rG_) (tr_pat r_l)) true (tr_host rG_) (tr_pat r_l))
+         (lenN (monos_on (tr_host rG_) (tr_pat r_l) (node_ids (tr_host rG_)) (node_ids (tr_pat r_l)))) <=? dflt DEFAULT_THRESHOLD None)%N = true /\
+  forallb (fun ci : bool * bool =>
+    match rule_of (fst ci) (snd ci) dG dH with
+    | Some (rc, l, r) =>
+        let Hh := tr_host (substrate (snd ci) dG dH) in let Pp := tr_pat l in
+        (N.max (comp_bound (monos_on Hh Pp) true Hh Pp) (lenN (monos_on Hh Pp (node_ids Hh) (node_ids Pp))) <=? dflt DEFAULT_THRESHOLD None)%N
+    | None => false end) [(true, false); (false, false); (true, true); (false, true)] = true.
+Proof. vm_compute. split; reflexivity. Qed.
